@@ -96,6 +96,63 @@ def scan_task(task):
                     pass
     res('C09/State/automated-branches-only-call-the-kinds-own-operation-without-arguments/D-inf', not bad and seen_kinds == set(KIND_OPS),
         f'kinds seen: {sorted(seen_kinds)}; offending statements: {bad}')
+    # (a6) a step hands over to the next step only as its LAST act: nothing of the state is written, and no other step called, after
+    # a call of self._begin_X / _update_X / _end_X on any path.  Automated operations run INSIDE that call; whatever a step wrote after
+    # it would be seen by them with automation and not without (the order of the hand would depend on the flags).
+    PH = ['ante_posting', 'bet_collection', 'blind_or_straddle_posting', 'dealing', 'betting', 'showdown', 'hand_killing', 'chips_pushing',
+          'chips_pulling']
+    STEPS = {f'_{k}_{p}' for p in PH for k in ('begin', 'update', 'end')} | {'_begin', '_end'}
+    MUT = ('append', 'extend', 'clear', 'pop', 'popleft', 'remove', 'rotate', 'add', 'insert', 'appendleft', 'discard', 'update', 'sort')
+
+    def is_step_call(n):
+        return (isinstance(n, ast.Call) and isinstance(n.func, ast.Attribute) and isinstance(n.func.value, ast.Name)
+                and n.func.value.id == 'self' and n.func.attr in STEPS)
+
+    def writes_self(st):
+        for n in ast.walk(st):
+            if isinstance(n, (ast.Assign, ast.AugAssign, ast.AnnAssign)):
+                for t in (n.targets if isinstance(n, ast.Assign) else [n.target]):
+                    if any(isinstance(m, ast.Attribute) and isinstance(m.value, ast.Name) and m.value.id == 'self' for m in ast.walk(t)):
+                        return True
+            if isinstance(n, ast.Call) and isinstance(n.func, ast.Attribute) and n.func.attr in MUT:
+                b = n.func.value
+                while isinstance(b, (ast.Subscript, ast.Attribute)):
+                    if isinstance(b, ast.Attribute) and isinstance(b.value, ast.Name) and b.value.id == 'self':
+                        return True
+                    b = b.value
+        return False
+    late = []
+    step_calls = 0
+
+    def scan(fn, body, rest_after):
+        nonlocal step_calls
+        for k, st in enumerate(body):
+            rest = body[k + 1:] + rest_after
+            if not isinstance(st, (ast.If, ast.For, ast.While, ast.Try, ast.Match, ast.With)):
+                if any(is_step_call(n) for n in ast.walk(st)):
+                    step_calls += 1
+                    for r in rest:
+                        if writes_self(r) or any(is_step_call(n) for n in ast.walk(r)):
+                            late.append((fn.name, st.lineno, r.lineno, ast.unparse(r)[:60]))
+                            break
+            elif isinstance(st, ast.If):
+                scan(fn, st.body, rest)
+                scan(fn, st.orelse, rest)
+            elif isinstance(st, (ast.For, ast.While)):
+                scan(fn, st.body, [st] + rest)
+            elif isinstance(st, ast.Match):
+                for c in st.cases:
+                    scan(fn, c.body, rest)
+            elif isinstance(st, ast.Try):
+                scan(fn, st.body, st.orelse + rest)
+                for h in st.handlers:
+                    scan(fn, h.body, rest)
+            elif isinstance(st, ast.With):
+                scan(fn, st.body, rest)
+    for f in [x for x in state_cls.body if isinstance(x, ast.FunctionDef)]:
+        scan(f, f.body, [])
+    res('C09/State/a-step-hands-over-to-the-next-step-as-its-last-act/D-inf', not late and step_calls >= 25,
+        f'{step_calls} hand-overs; state written or another step called after a hand-over: {late}')
     return {'results': out, 'contract': None}
 
 
